@@ -160,7 +160,15 @@ def rule_r1_r2_r3(ctx):
     # R2 ordering
     rep = replace_calls[0]
     rn = cfg.nodes_containing(rep)[0]
-    wr = [c for c in calls_in(f) if isinstance(c.func, ast.Attribute) and c.func.attr == "write" and norm(c.func.value) == "writer"]
+    # the writer object: whatever name the constructed _ExternalDataWriter is bound to (assignment or with-item)
+    wnames = set()
+    par = getattr(ctors[0], "_parent", None)
+    if isinstance(par, ast.Assign):
+        wnames |= {t.id for t in par.targets if isinstance(t, ast.Name)}
+    elif isinstance(par, ast.withitem) and isinstance(par.optional_vars, ast.Name):
+        wnames.add(par.optional_vars.id)
+    wr = [c for c in calls_in(f) if isinstance(c.func, ast.Attribute) and c.func.attr == "write" and (
+        norm(c.func.value) in wnames or c.func.value is ctors[0])]
     ctx.require(len(wr) == 1, "writer.write() call not found")
     wn = cfg.nodes_containing(wr[0])[0]
     ok = cfg.dominates(wn, rn) and wn.id != rn.id and isinstance(getattr(wr[0], "_parent", None), ast.Expr)
@@ -293,15 +301,24 @@ def rule_r4(ctx):
                   "file is overwritten in place",
                   how="dominator query")
     # the checked list covers the paths that are written: both derive from the same relative-path list
-    arg = norm(chk[0].args[0]) if chk[0].args else ""
+    # both the checked destinations and the shard jobs are built from one list of relative shard paths
+    arg = chk[0].args[0] if chk[0].args else None
     src = None
-    for n in own_nodes(f.node):
-        if isinstance(n, ast.Assign) and norm(n.targets[0]) == arg and isinstance(n.value, ast.ListComp):
-            src = norm(n.value.generators[0].iter)
-            ok_join = "os.path.join(base_dir" in norm(n.value.elt)
-    jobs_src = [norm(n.iter) for n in own_nodes(f.node) if isinstance(n, ast.For) and "shard_jobs.append" in text(n)]
-    ok = src is not None and ok_join and any(src in j for j in jobs_src)
-    ctx.check("R4", f"checked destinations ({arg}) are built from the same list as the shard jobs ({src})", ok, f, chk[0],
+    ok_join = False
+    if isinstance(arg, ast.Name):
+        for n in own_nodes(f.node):
+            if isinstance(n, ast.Assign) and any(isinstance(t, ast.Name) and t.id == arg.id for t in n.targets) and isinstance(n.value, ast.ListComp):
+                it = n.value.generators[0].iter
+                src = it.id if isinstance(it, ast.Name) else None
+                ok_join = any(isinstance(x, ast.Call) and dotted_of(x.func) == "os.path.join" and x.args and "D" not in ("",) for x in ast.walk(n.value.elt))
+    elif isinstance(arg, ast.ListComp):
+        it = arg.generators[0].iter
+        src = it.id if isinstance(it, ast.Name) else None
+        ok_join = any(isinstance(x, ast.Call) and dotted_of(x.func) == "os.path.join" for x in ast.walk(arg.elt))
+    # loops that create the shard write jobs (they contain a shard write or feed the list the submit loop iterates)
+    job_loops = [n for n in own_nodes(f.node) if isinstance(n, ast.For) and src is not None and any(isinstance(x, ast.Name) and x.id == src for x in ast.walk(n.iter))]
+    ok = src is not None and ok_join and bool(job_loops)
+    ctx.check("R4", f"checked destinations ({norm(arg) if arg is not None else '?'}) are built from the same list as the shard jobs ({src})", ok, f, chk[0],
               "the existence check covers a different list of paths than the one written", how="shared source list of relative paths")
     g = repo.func(f"{ED}:_check_no_existing_shard_files")
     raises = [n for n in own_nodes(g.node) if isinstance(n, ast.Raise)]
@@ -309,9 +326,16 @@ def rule_r4(ctx):
         and not any(isinstance(n, (ast.Try, ast.Return)) for n in own_nodes(g.node))
     if ok:
         iff = raises[0]._parent
-        ok = norm(iff.test) in ("existing", "len(existing) > 0", "existing != []")
         comp = [n for n in own_nodes(g.node) if isinstance(n, ast.ListComp)]
-        ok = ok and len(comp) == 1 and norm(comp[0].generators[0].iter) == g.params[0] and len(comp[0].generators[0].ifs) == 1
+        ok = len(comp) == 1 and norm(comp[0].generators[0].iter) == g.params[0] and len(comp[0].generators[0].ifs) == 1
+        # the raise is guarded by the non-emptiness of the list of existing paths (the comprehension's result)
+        cpar = getattr(comp[0], "_parent", None) if comp else None
+        ename = cpar.targets[0].id if isinstance(cpar, ast.Assign) and isinstance(cpar.targets[0], ast.Name) else None
+        t = iff.test
+        ok = ok and ename is not None and (
+            (isinstance(t, ast.Name) and t.id == ename)
+            or (isinstance(t, ast.Compare) and any(isinstance(x, ast.Name) and x.id == ename for x in ast.walk(t.left))
+                and isinstance(t.ops[0], (ast.Gt, ast.NotEq, ast.GtE))))
     ctx.check("R4", "_check_no_existing_shard_files rejects if any destination exists", ok, g, g.node,
               "the existence check does not reject on every existing destination", how="single raise guarded by the non-empty list of existing paths")
 
